@@ -86,6 +86,10 @@ func VH_C12_SendFormat() {
 	if err != nil {
 		vCover("too-large")
 		vAssert(L > MaxMessageSize, "only-oversize-refused")
+		// a refused send is not a frame: nothing on the wire, no counter value, IV
+		// slot or first-frame associated data consumed
+		vAssert(len(sc.outs) == 0, "refused-send-emits-nothing")
+		vAssert(s.encryptCounter == ctr && s.finishedSendAAD == firstDone && s.encryptIV == iv, "refused-send-consumes-no-counter-or-first-frame-state")
 		return
 	}
 	vAssert(len(sc.outs) == 1, "one-write")
